@@ -2121,12 +2121,19 @@ f_objects (void)
   int display_hidden = 0, t_sz, i, j, num_arg = st_num_arg;
   svalue_t *v;
 
+  /* objects(void | string | function, void | object): the filter is the FIRST argument,
+   * the optional second one is the object in which a named function is called */
+  svalue_t *arg = sp - num_arg + 1;
+  object_t *apply_ob = current_object;
+
   if (!num_arg)
     func = 0;
-  else if (sp->type == T_FUNCTION)
-    f = sp->u.fp;
-  else
-    func = sp->u.string;
+  else if (arg->type == T_FUNCTION)
+    f = arg->u.fp;
+  else if (arg->type == T_STRING)
+    func = arg->u.string;
+  if (num_arg > 1 && arg[1].type == T_OBJECT)
+    apply_ob = arg[1].u.ob;
 
   if (!(tmp = (object_t **) new_string ((t_sz = 1000) * sizeof (object_t *),
                                         "TMP: objects: tmp")))
@@ -2151,8 +2158,8 @@ f_objects (void)
             {
               FREE_MSTR ((char *) tmp);
               sp--;
-              free_svalue (sp, "f_objects");
-              *sp = const0;
+              pop_n_elems (num_arg);
+              push_number (0);
               return;
             }
           if (v->type == T_NUMBER && !v->u.number)
@@ -2161,13 +2168,13 @@ f_objects (void)
       else if (func)
         {
           push_object (ob);
-          v = apply (func, current_object, 1, ORIGIN_EFUN);
+          v = apply (func, apply_ob, 1, ORIGIN_EFUN);
           if (!v)
             {
               FREE_MSTR ((char *) tmp);
               sp--;
-              free_svalue (sp, "f_objects");
-              *sp = const0;
+              pop_n_elems (num_arg);
+              push_number (0);
               return;
             }
           if ((v->type == T_NUMBER) && !v->u.number)
